@@ -130,6 +130,7 @@ SimRunClauses ==
      \o On("C03", C03_L(Cfg, Opts, fin.lg)) \o On("C04", C04_L(Cfg, Opts, fin.lg))
      \o On("C07", C07_L(Cfg, Opts, fin.lg)) \o On("C08", C08_L(Cfg, Opts, fin.lg))
      \o On("C10", C10_L(Cfg, Opts, fin.lg)) \o On("C14", C14_L(Cfg, Opts, fin.lg))
+     \o On("C13", C13_L(Cfg, Opts, fin.lg))
      \o (IF "sub" \in DOMAIN Run.args
          THEN On("C20", C20_Parent(Cfg, Opts, fin.lg, Run.args.sub, Run.args.expectSteps)
                         \o << <<"C20.L.exact-rate", Run.obs.exactRate>> >>)
